@@ -671,6 +671,53 @@ Example uncancelled_premises :
   stall_premises MAsync c [Ret 5 1] Stall s0 /\ inner_first MAsync c [Ret 5 1] = false.
 Proof. unfold stall_premises. cbn. repeat split; auto; discriminate. Qed.
 
+(* ======== asyncio, the transport limit alone (timeout_ops = 0: the operation has no limit of its own) ======== *)
+Lemma asy_prefix_nolimit nt wrapped Ti mi poll pre rest : forall t v,
+  all_ret pre = true ->
+  (wrapped && negb (Ti =? 0) && ((poll =? 0) || (Ti <? poll)) = true -> each_lt Ti pre = true) ->
+  asy_body nt wrapped Ti mi poll None (pre ++ rest) t v true
+  = asy_body nt wrapped Ti mi poll None rest (t + dur pre) (last_val pre v) true.
+Proof.
+  induction pre as [|p pre IH]; intros t v Ha He; cbn [app dur last_val].
+  - rewrite N.add_0_r. reflexivity.
+  - destruct p; try discriminate. cbn [all_ret dur each_lt last_val] in *.
+    cbn [asy_body reached negb leaf_fin].
+    assert (Hb : before (t + d) (omin (inner_deadline wrapped Ti poll t) None) = true).
+    { unfold inner_deadline. destruct (wrapped && negb (Ti =? 0) && ((poll =? 0) || (Ti <? poll))) eqn:E.
+      - specialize (He eq_refl). apply Bool.andb_true_iff in He. destruct He as [He _]. nb.
+        cbn [omin before]. apply ltb_t. lia.
+      - reflexivity. }
+    rewrite Hb. rewrite IH; auto.
+    + rewrite N.add_assoc. reflexivity.
+    + intros W. specialize (He W). apply Bool.andb_true_iff in He. tauto.
+Qed.
+
+(* a read that stalls inside an operation WITHOUT a limit of its own is still ended by the transport's limit, counted
+   from the start of that read (whatever the enclosing operation does or does not set up) *)
+Theorem asy_inner_alone_fires c pre l post s :
+  c_To c = 0 -> inner_eff MAsync c = true -> all_ret pre = true -> is_stall l = true ->
+  each_lt (c_Ti c) pre = true -> topen s = true ->
+  let r := run_op MAsync c (pre ++ l :: post) s in
+  out r = Raised (ETimeout (c_mi c)) /\ now (rst r) = now s + dur pre + c_Ti c /\
+  topen (rst r) = c_nt c /\ restored MAsync s (rst r).
+Proof.
+  intros HT Hi Ha Hl He Ho r. subst r.
+  unfold run_op, asy_op. rewrite HT, Ho. cbn [N.eqb].
+  unfold inner_eff in Hi.
+  rewrite asy_prefix_nolimit; auto.
+  assert (Hf : forall t, leaf_fin l t None = None) by (intro; destruct l; try discriminate; reflexivity).
+  cbn [asy_body reached negb]. rewrite Hf.
+  unfold inner_deadline. rewrite Hi.
+  cbn [out rst set_open set_now now topen handler deadline interval workers lock tasks].
+  rewrite Bool.negb_involutive. unfold restored, timer_back. repeat split; auto.
+Qed.
+
+Example inner_alone_premises :
+  let c := mkC true true 0 [1] true 150 [2] 1000 false true in
+  c_To c = 0 /\ inner_eff MAsync c = true /\ all_ret [Ret 5 1; Ret 7 2] = true /\ is_stall Stall = true
+  /\ each_lt (c_Ti c) [Ret 5 1; Ret 7 2] = true /\ topen s0 = true.
+Proof. cbn. repeat split; reflexivity. Qed.
+
 (* ---- an operation that the device answers in time is not disturbed ---- *)
 Theorem completes_in_time m c ls s :
   c_rearm c = true -> 0 < c_To c -> all_ret ls = true -> dur ls < c_To c ->
